@@ -512,3 +512,49 @@ Proof.
       eapply CJ_enter; eauto. unfold s2. simpl. apply find_put_eq.
     + apply Hgen; auto.
 Qed.
+
+(** ---- a step of an API task ---- *)
+Ltac relfin := apply HRes_release_finish; reflexivity.
+
+Lemma CJ_do_step s t : LkS s -> FI s -> CJ s -> CJ (do_step s t).
+Proof.
+  intros HL HF HC. unfold do_step. destruct (find_task (tasks s) t) as [[c p]|] eqn:Ef; auto.
+  pose proof HF as [HP HS].
+  pose proof (HP _ _ _ Ef) as Hok.
+  pose proof (lk_compat _ _ _ HL _ _ _ Ef) as Hc.
+  assert (Hhold : locked_pc p = true -> holder s = Some t) by (intros Hl; eapply (lk_holder_of _ _ _ HL); eauto).
+  destruct p; simpl in Hhold; try specialize (Hhold eq_refl); auto; simpl in Hok.
+  - eapply CJ_enter; eauto.
+  - eapply CJ_enter; eauto.
+  - (* S_G1 *) destruct (st_fsm s) eqn:Efs; try discriminate. neutral_with ltac:(hput c S_G2).
+  - neutral_with ltac:(hput c S_G3).
+  - (* S_G3 *) destruct c; simpl in Hc; try discriminate.
+    + neutral_with relfin.
+    + apply CJ_requeue; auto.
+  - (* R_WaitStarted *) destruct (started_ev s) eqn:Esv; auto. neutral_with ltac:(hput c R_G).
+  - (* R_G *)
+    destruct c; simpl in Hc; try discriminate; try (neutral_with relfin; fail);
+      (neutral_with ltac:(right; right; simpl; rewrite release_holder, release_lockq, release_tasks;
+                          repeat split; auto; eexists; exists P_WaitRunFinished; simpl; auto)).
+  - (* Z_G1 *) destruct c; simpl in Hc; try discriminate. neutral_with ltac:(hput (CReset o) Z_G1b).
+  - (* Z_G1b *)
+    destruct (st_fsm s) eqn:Efs; try discriminate.
+    + neutral_with ltac:(hput c Z_G3).
+    + destruct (runt s) eqn:Er; [neutral_with ltac:(hput c Z_WaitRunTask) | neutral_with ltac:(hput c Z_G3)].
+  - (* Z_WaitRunTask *)
+    destruct (runt s) eqn:Er; auto. destruct (st_fsm s) eqn:Efs; try discriminate; neutral_with ltac:(hput c Z_G3).
+  - neutral_with ltac:(hput c Z_G4).
+  - neutral_with relfin.
+  - (* C_WaitRunFinished *)
+    destruct (run_finished s) as [[|]|] eqn:Erf; auto.
+    destruct c; simpl in Hc; try discriminate. eapply CJ_close_trigger; eauto.
+  - (* C_WaitRunTask *)
+    destruct (runt s) eqn:Er; auto. destruct c; simpl in Hc; try discriminate.
+    neutral_with ltac:(hput CClose C_G3).
+  - neutral_with ltac:(hput c C_G4).
+  - (* C_G4 *) destruct (st_fsm s) eqn:Efs; try discriminate.
+    apply CJ_close_finish; auto. eapply not_pend; eauto.
+  - (* P_WaitRunFinished *)
+    destruct (run_finished s) as [[|]|]; auto. apply (CJ_finish_free s); auto. eapply not_pend; eauto.
+  - apply (CJ_finish_free s); auto. eapply not_pend; eauto.
+Qed.
